@@ -187,7 +187,7 @@ func runIOCase(c ioCase, st *ioStats) *fail {
 		if opErr != nil && opErr != io.EOF {
 			return failf("unexpected-error:read", "%s: %v", what, opErr)
 		}
-		if opErr == io.EOF && n == c.Len && c.Len > 0 {
+		if opErr == io.EOF && n == c.Len {
 			return failf("eof-with-full-buffer", "%s: the buffer was filled completely and io.EOF was returned", what)
 		}
 		if n == 0 && c.Len > 0 && opErr != io.EOF {
